@@ -17,6 +17,7 @@ from .symbolic import (
     Literal,
     OperationResult,
     LogicalBinaryOperator,
+    QueryObjectDescriptor,
 )
 
 
@@ -42,6 +43,11 @@ class ConclusionSelector(LogicalBinaryOperator, ABC):
         Uses canonical tuple keys for stable deduplication.
         """
         if not conclusions:
+            return
+        if not isinstance(self._eval_parent_, QueryObjectDescriptor):
+            # an inner selector only proposes its conclusions: a selector above it may still override them, so they
+            # are remembered as concluded only by the selector the query itself evaluates
+            self._conclusion_.update(conclusions)
             return
         required_vars = HashedIterable()
         for conclusion in conclusions:
